@@ -125,7 +125,8 @@ def run(tier, seed):
     ck.assumptions = ['receiver is any coordinate triple before the call']
     ck.bounds = {'Decode input lengths': lens0, 'form-specific decoders / UnmarshalBinary lengths': lensx, 'hex string lengths': hexl, 'contents': 'all byte values'}
     ck.outside = ['input lengths outside the tables (they take the same default/length-mismatch branch)']
-    kernels.prove(ck, 'field', ['Mul', 'Square', 'Add', 'Opp', 'ToMontgomery', 'FromMontgomery', 'Selectznz', 'Nonzero', 'SetOne'], tier)
+    from props import C12
+    C12.run(tier, seed, ck)   # contracts of the field.Element methods used as summaries are re-proved on the current tree
     failures = []
     for via, lens in ((0, lens0), (1, lensx), (2, lensx), (3, lensx)):
         form = {0: 'any', 1: 'compressed', 2: 'uncompressed', 3: 'any'}[via]
